@@ -464,7 +464,8 @@ def run_concurrent_case(prog, params):
                     continue
                 want = sorted(n_.name.encode() for n_ in u.nodes if n_.parent == dv and n_.name is not None and got_snap[n_.var][0] in ('dir', 'file'))
                 got_l = [v_ for v_ in lo.value]
-                if all(v_.is_concrete() for v_ in got_l) and sorted(bytes(v_) for v_ in got_l) != want:
+                # (the script's read_dir reports the joined child paths: compare the last components)
+                if all(v_.is_concrete() for v_ in got_l) and sorted(bytes(v_).rsplit(b'/', 1)[-1] for v_ in got_l) != want:
                     findings.append(fnd(key_base + '|final_listing_disagrees', 'after the concurrent calls read_dir(%s) lists %r but the existing children are %r'
                                         % (dv, sorted(bytes(v_) for v_ in got_l), want)))
                     return findings
